@@ -104,6 +104,10 @@ var StoredOldSig = false
 // several diffs); nil = a new context per call.
 var ReuseDiffCtx *pwr.DiffContext
 
+// OldContainerTweak, when set, edits the old build's container after the walk and before it is signed and diffed
+// against (a container that was not produced by a directory walk - from a zip, say - lists its directories in any order).
+var OldContainerTweak func(*tlc.Container)
+
 // DiffDirs runs the real ComputeSignature + WritePatch.
 func DiffDirs(oldDir, newDir string, comp Comp, wrap PoolWrap, patchW, sigW io.Writer) (*DiffResult, error) {
 	ctx := context.Background()
@@ -114,6 +118,9 @@ func DiffDirs(oldDir, newDir string, comp Comp, wrap PoolWrap, patchW, sigW io.W
 	newC, err := Walk(newDir)
 	if err != nil {
 		return nil, err
+	}
+	if OldContainerTweak != nil {
+		OldContainerTweak(oldC)
 	}
 	oldSig, err := pwr.ComputeSignature(ctx, oldC, fspool.New(oldC, oldDir), Quiet())
 	if err != nil {
